@@ -570,6 +570,26 @@ class _Run:
                 self.emit(s, name, ["final"])
 
 
+_COUNTING_LISTBOX = None
+
+
+def _counting_listbox():
+    """Made once per process (urwid keeps every widget class for ever)."""
+    global _COUNTING_LISTBOX  # noqa: PLW0603
+    if _COUNTING_LISTBOX is None:
+        import urwid  # noqa: PLC0415
+
+        class CountingListBox(urwid.ListBox):
+            n_inv = 0
+
+            def _invalidate(self):
+                self.n_inv += 1
+                super()._invalidate()
+
+        _COUNTING_LISTBOX = CountingListBox
+    return _COUNTING_LISTBOX
+
+
 class _WidgetRun:
     """Signals as the bundled widgets emit them (Widget._emit: the widget itself is the first emitted argument).
 
@@ -647,6 +667,10 @@ class _WidgetRun:
         # of `[Button(lbl, cb, i) for i, lbl in enumerate(...)]`); it is passed after the emitted arguments
         self.widgets[5] = urwid.Button("ok", on_press=handlers[3], user_data=0)
         self.conns.append([5, "click", 3, (), None, True, 0])
+        # a ListBox is a signal receiver itself: it connects its _invalidate to its walker's 'modified' and must
+        # disconnect it from a walker it is taken off (the body may be replaced, also while it is empty)
+        lb = _counting_listbox()(self.widgets[6])
+        cur_body = 6
         for i, op in enumerate(self.scen["ops"]):
             k = op["op"]
             wi = op.get("w", 0) % len(self.widgets)
@@ -677,6 +701,12 @@ class _WidgetRun:
                         first = next(x for x in self.conns if x[5] and x[:4] == c[:4] and x[6] is None)
                         first[5] = False
                     self.log.add("disc", [c[0], c[1], c[2], bool(op.get("by_key"))])
+                    continue
+                if k == "body":
+                    cur_body = 6 + op.get("to", 0) % 2
+                    lb.body = self.widgets[cur_body]
+                    self.log.add("body", cur_body)
+                    self.res.probe("listbox_body_replaced")
                     continue
                 if k != "act":
                     continue
@@ -734,16 +764,24 @@ class _WidgetRun:
                     else:
                         w.mouse_event((12,), "mouse release", 0, 2, 0, True)
                 else:
-                    how = a % 4
-                    if how == 0:
+                    how = a % 5
+                    inv0 = lb.n_inv
+                    if how == 0 or not len(w):
                         w.append(urwid.Text("n"))
                     elif how == 1:
                         w.insert(0, urwid.Text("i"))
                     elif how == 2 and len(w) > 1:
                         del w[0]
+                    elif how == 3:
+                        del w[:]
                     else:
                         w[0] = urwid.Text("r")
                     exp.append((wi, "modified", ()))
+                    got_inv, want_inv = lb.n_inv - inv0, (1 if wi == cur_body else 0)
+                    if got_inv != want_inv:
+                        self.violate("C14.3" if got_inv > want_inv else "C14.1", "listbox-invalidated-%s-by-its-walkers-modified-signal" % ("too-often" if got_inv > want_inv else "too-rarely"), f"step {i}: walker {wi} (current body: {cur_body}) changed: ListBox._invalidate ran {got_inv}x, expected {want_inv}x")
+                        break
+                    self.res.probe("listbox_walker_signal_checked")
                 self.log.add("act", [wi, a, op.get("v", 0), bool(op.get("quiet"))])
             except Exception as e:  # noqa: BLE001
                 if core.raised_in_harness(e):
@@ -827,6 +865,8 @@ class SignalsEngine(Engine):
                     ops.append({"op": "conn", "w": rng.randrange(8), "n": rng.randrange(2), "h": rng.randrange(4), "ua": rng.choice([[], [], ["u"], ["u", 7]])})
                 elif r < 0.45:
                     ops.append({"op": "disc", "c": rng.randrange(6), "by_key": rng.random() < 0.5})
+                elif r < 0.52:
+                    ops.append({"op": "body", "to": rng.randrange(2)})
                 else:
                     ops.append({"op": "act", "w": rng.randrange(8), "a": rng.randrange(12), "v": rng.randrange(6), "quiet": rng.random() < 0.15})
             return {"mode": "widgets", "config": {}, "ops": ops, "behaviours": []}
